@@ -79,7 +79,13 @@ def m_len(x):
     return len(x)
 
 
-MAPS = {"double": m_double, "first_char": m_first_char, "ident": m_ident, "upper": m_upper, "reciprocal": m_reciprocal, "neg": m_neg, "year": m_year, "len": m_len}
+def m_plus_day(x):
+    import datetime
+
+    return x + datetime.timedelta(days=1)
+
+
+MAPS = {"double": m_double, "first_char": m_first_char, "ident": m_ident, "upper": m_upper, "reciprocal": m_reciprocal, "neg": m_neg, "year": m_year, "len": m_len, "plus_day": m_plus_day}
 
 
 # ---- builder: only the public DSL ----------------------------------------------------------------
